@@ -60,7 +60,7 @@ def run(plan):
                 return
         if plan.get("stale_ack"):
             dev.ack_mode = "old"
-        if plan.get("learn_caps"):
+        if plan.get("learn_caps") and not plan.get("caps_late"):
             # the capability report is learned first; apply() must still encode what was requested
             o = await s.do({"op": "caps"})
             if o.kind != "ok":
@@ -90,6 +90,14 @@ def run(plan):
                 if o.kind != "ok" or not ac.online:
                     res.fail("refresh before the partial apply failed", repr(o))
                     return
+                if plan.get("learn_caps") and plan.get("caps_late") and si == 0:
+                    # the first poll came before the capability query: what was read then (a fan speed without a
+                    # name, say) is what the object holds when the profile arrives
+                    o = await s.do({"op": "caps"})
+                    if o.kind != "ok":
+                        res.fail(f"get_capabilities raised {o.exc_type}", repr(o.exc))
+                        return
+                    w.fire("capabilities_learned_after_first_poll")
                 keep = [k for k in FIELDS if k != "beep" and rr.random() < 0.6]
                 full = dict(reported, beep=st["beep"])
                 for k in FIELDS:
@@ -287,6 +295,8 @@ def space(tier):
                 recs.append([0x0210, rng.choice(["00", "01", "05", "06", "07"])])      # fan-speed profile
             p["config"] = dict(p["config"], caps_pages=[[recs, None]])
             p["learn_caps"] = True
+            if p.get("mode") == "after_refresh" and rng.random() < 0.5:
+                p["caps_late"] = True
         return p
     sp.add("random", 3000 if tier == "quick" else 600_000, f_rand)
     return sp
